@@ -43,6 +43,13 @@ Definition bcast_idx (vs : list Z) (i : zidx) : zidx :=
 
 Definition last_z (l : list Z) : Z := last l 0%Z.
 
+(* numpy drops excess leading axes of length 1 when a value has more axes than the target *)
+Fixpoint strip_lead (k : nat) (sh : list Z) : list Z :=
+  match k, sh with
+  | S k', v :: t => if (v =? 1)%Z then strip_lead k' t else sh
+  | _, _ => sh
+  end.
+
 (* the centre of cell i (total version of Mesh.index2point) *)
 Definition centre (m : mesh) (i : zidx) : list Q := map3 i2p1 (pmin (reg m)) (cell m) i.
 
@@ -106,9 +113,13 @@ Definition sample (f : fstate) (p : list Q) : res cellv :=
 Definition shape_of (m : mesh) (nv : nat) : list Z := n m ++ [Z.of_nat nv].
 
 (* np.full((n.., nvdim), val): general broadcast *)
+Definition eff_shape (m : mesh) (nv : nat) (sh : list Z) : list Z :=
+  strip_lead (length sh - length (shape_of m nv)) sh.
+
 Definition full_bcast (m : mesh) (nv : nat) (sh : list Z) (data : list V) : res (zidx -> cellv) :=
-  if bcast_ok sh (shape_of m nv)
-  then OK (fun i => map (fun k => nda_at vzero sh data (bcast_idx sh (i ++ [k]))) (ziota 0 nv))
+  let sh' := eff_shape m nv sh in       (* same data: the dropped axes have length 1 *)
+  if bcast_ok sh' (shape_of m nv)
+  then OK (fun i => map (fun k => nda_at vzero sh' data (bcast_idx sh' (i ++ [k]))) (ziota 0 nv))
   else Err ValueE.
 
 Definition as_array_const (nv : nat) (v : V) : res (zidx -> cellv) :=
